@@ -1218,3 +1218,74 @@ func c01r8(rc *core.RC) {
 		rc.Unknown("encoder/composite-constructors", token.NoPos, "structCode/arrayCode not found")
 	}
 }
+
+// ---- C01.R9 what may stand in map key position ----
+
+// encoding/json accepts string, integer and TextMarshaler keys and writes each as a JSON string.
+// mapKeyCode must (a) return a pointer code only under a test that the pointer type implements
+// TextMarshaler, and (b) not hand a json.Number to the value path of strings, which emits it
+// unquoted (OpNumber).
+func c01r9(rc *core.RC) {
+	p := rc.P
+	fd := p.Func("encoder", "Compiler.mapKeyCode")
+	if fd == nil {
+		rc.Unknown("encoder.mapKeyCode", token.NoPos, "not found")
+		return
+	}
+	rc.Touch("encoder.(*Compiler).mapKeyCode")
+	info := p.Info(fd)
+	kss := kindSwitches(info, fd)
+	if len(kss) == 0 {
+		rc.Unknown("encoder.mapKeyCode/kind-switch", fd.Pos(), "kind switch not found")
+		return
+	}
+	ks := kss[len(kss)-1]
+	// (a) Ptr
+	if cc := ks.clause["Ptr"]; cc == nil {
+		rc.OK("encoder.mapKeyCode/kind Ptr", ks.sw.Pos(), "pointer keys reach the unsupported-type error unless the TextMarshaler test at the top matched")
+	} else {
+		guarded := true
+		ast.Inspect(cc, func(m ast.Node) bool {
+			r, ok := m.(*ast.ReturnStmt)
+			if !ok {
+				return true
+			}
+			g := false
+			for _, c := range condChainNodes(fd, r) {
+				if c.pos && strings.Contains(core.Src(p.Fset, c.cond), "marshalTextType") {
+					g = true
+				}
+			}
+			if !g {
+				guarded = false
+			}
+			return true
+		})
+		rc.Check(guarded, "encoder.mapKeyCode/kind Ptr", cc.Pos(), "a pointer key is compiled only under a test that the pointer type implements encoding.TextMarshaler (encoding/json rejects other pointer keys; compiled as values they are written unquoted)")
+	}
+	// (b) String: json.Number separated
+	if cc := ks.clause["String"]; cc == nil {
+		rc.Bad("encoder.mapKeyCode/kind String", ks.sw.Pos(), "string keys have no clause")
+	} else {
+		sep := false
+		ast.Inspect(cc, func(m ast.Node) bool {
+			if ifs, ok := m.(*ast.IfStmt); ok && strings.Contains(core.Src(p.Fset, ifs.Cond), "jsonNumberType") {
+				sep = true
+			}
+			return true
+		})
+		rc.Check(sep, "encoder.mapKeyCode/kind String/json.Number", cc.Pos(), "a json.Number key is separated from the value path of strings, which writes a Number unquoted (OpNumber): in key position it has to be a quoted string")
+	}
+	// integers: the *String constructors
+	n := 0
+	for _, k := range []string{"Int", "Int8", "Int16", "Int32", "Int64", "Uint", "Uint8", "Uint16", "Uint32", "Uint64", "Uintptr"} {
+		cc := ks.clause[k]
+		if cc == nil {
+			rc.Bad("encoder.mapKeyCode/kind "+k, ks.sw.Pos(), "integer keys of kind %s have no clause", k)
+			continue
+		}
+		n++
+		name, ok := clauseReturnsCall(info, cc)
+		rc.Check(ok && strings.Contains(name, "StringCode"), "encoder.mapKeyCode/kind "+k, cc.Pos(), "integer keys are compiled with the quoting constructor (%s)", name)
+	}
+}
